@@ -708,6 +708,7 @@ static void init(const sk_opts* o)
 	add_table(fc_der, fc_der_n);
 	add_table(fc_params, fc_params_n);
 	add_table(fc_rng, fc_rng_n);
+	add_table(fc_sm, fc_sm_n);
 	if (!strncmp(v, "alloc", 5)) mode = 0;
 	else if (!strncmp(v, "badarg", 6)) mode = 1;
 	else if (!strncmp(v, "wipe", 4)) mode = 2;
